@@ -460,14 +460,15 @@ func makeEvent(ev *evSpec, size int) *pipeline.Event {
 
 // judged is the state of the coverage accounting of one batch.
 type batchJudge struct {
-	s         *session
-	b         *batchSpec
-	exp       []evSpec
-	next      int
-	fails     []*failure
-	rejected  int
-	single413 int  // index (in exp) of an event rejected alone with 413, or -1
-	firstOK   bool // the first attempt's body satisfied the oracle
+	s                *session
+	b                *batchSpec
+	exp              []evSpec
+	next             int
+	fails            []*failure
+	rejected         int
+	single413        int  // index (in exp) of an event rejected alone with 413, or -1
+	skippedSingle413 int  // accepted payloads that start right behind that event
+	firstOK          bool // the first attempt's body satisfied the oracle
 	// roundOver: the last request got a retryable failure; the plugin's retry may
 	// start the batch over (events accepted before are sent again: at least
 	// once) or resume after the accepted prefix. maxNext is the longest prefix
@@ -594,6 +595,22 @@ func (j *batchJudge) onCapture(c *capture) {
 			// a new round after a retryable failure may start the batch over
 			if n0, f0 := j.alignAndCheck(recs, 0); f0 == nil {
 				j.next, n, f = 0, n0, nil
+			}
+		}
+		if f != nil && j.single413 >= 0 {
+			// the next expected event was rejected alone with 413: it cannot be
+			// delivered (finish() excuses it too). When the flush timer cut the
+			// harness's batch into two plugin batches (a starved feeder), the events
+			// behind it still arrive: accept a payload that starts right behind it,
+			// in this round or in a round started over
+			for _, from := range []int{j.next, 0} {
+				if from == j.single413 || (from < j.single413 && j.roundOver) {
+					if n1, f1 := j.alignAndCheck(recs, j.single413+1); f1 == nil {
+						j.next, n, f = j.single413+1, n1, nil
+						j.skippedSingle413++
+						break
+					}
+				}
 			}
 		}
 		j.roundOver = false
@@ -1019,6 +1036,9 @@ func runCase(cs *caseSpec, scratch string, res *caseResult) {
 		}
 		if j.single413 >= 0 {
 			res.count("single_event_413", 1)
+		}
+		if j.skippedSingle413 > 0 {
+			res.count("payload_accepted_behind_an_event_rejected_alone_with_413", int64(j.skippedSingle413))
 		}
 		if c.Mult > 0 {
 			transportEvidence(res, c, b, j, caps, accepted)
